@@ -12,7 +12,8 @@ package main
 //
 // Oracle, evaluated on the mapping as observed through CheckKeyExist over all (source, target) pairs after
 // every step: assignment is a function of the key; an assignment never changes once observed; no channel of
-// the smaller side serves more than ceil(larger/smaller) of the other side; equal counts => injective.
+// the smaller side serves more than ceil(larger/smaller) of the other side; equal counts => injective; and (totality)
+// when the larger side is offered round-robin over the smaller side every offered channel gets its assignment.
 
 import (
 	"fmt"
@@ -45,6 +46,23 @@ func runC16(tier string) *vf.Run {
 				}
 				c16Case(run, sc, tc, offers)
 			}
+			// totality: the larger side offered round-robin over the smaller side, in several orders
+			for o := 0; o < run.Pick(3, 40); o++ {
+				rnd := vf.Rand(run.Seed, fmt.Sprintf("C16t/%d/%d", sc, tc), o)
+				larger := sc
+				if tc > sc {
+					larger = tc
+				}
+				var offers []c16Offer
+				for _, i := range rnd.Perm(larger) {
+					if sc >= tc {
+						offers = append(offers, c16Offer{i, i % tc})
+					} else {
+						offers = append(offers, c16Offer{i % sc, i})
+					}
+				}
+				c16Case(run, sc, tc, offers, true)
+			}
 			// all permutations of up to 4 distinct pairs
 			if sc*tc >= 2 {
 				rnd := vf.Rand(run.Seed, fmt.Sprintf("C16p/%d/%d", sc, tc), 0)
@@ -64,6 +82,7 @@ func runC16(tier string) *vf.Run {
 	run.Floor("count_pairs", 64)
 	run.Floor("waits", 100)
 	run.Floor("forwards_taken", 50)
+	run.Floor("balanced_total_cases", 64)
 	run.Exhaustive = false
 	return run
 }
@@ -84,7 +103,7 @@ func permute(a []c16Offer, f func([]c16Offer)) {
 	rec(0)
 }
 
-func c16Case(run *vf.Run, sc, tc int, offers []c16Offer) {
+func c16Case(run *vf.Run, sc, tc int, offers []c16Offer, expectTotal ...bool) {
 	run.Eval(1)
 	m := util.NewChannelMapping(sc, tc)
 	sname := func(i int) string { return fmt.Sprintf("src-dml_%d", i) }
@@ -197,6 +216,17 @@ func c16Case(run *vf.Run, sc, tc int, offers []c16Offer) {
 	}
 	run.Count("waits", waits)
 	run.Count("forwards_taken", fwd)
+	if len(expectTotal) > 0 && expectTotal[0] {
+		// balanced offering: every channel of the larger side was offered once, paired round-robin with the smaller
+		// side, so no channel of the smaller side was asked to serve more than ceil(larger/smaller): each of the
+		// larger-side channels in use must have its assignment now (a refused one can never get it: every channel
+		// that refused is full by the code's own quota, so nothing will ever be forwarded)
+		run.Count("balanced_total_cases", 1)
+		if len(assigned) < larger {
+			fail("C16/channel-in-use-never-assigned", fmt.Sprintf("counts %d->%d: %d channels of the larger side were offered round-robin (at most ceil(%d/%d)=%d per channel of the smaller side) but only %d got an assignment; quota of the mapping = %d", sc, tc, larger, larger, smaller, bound, len(assigned), m.AverageCnt()))
+			return
+		}
+	}
 	if len(assigned) >= 2 && (waits > 0 || sc != tc) {
 		var ks []string
 		for _, o := range offers {
